@@ -699,6 +699,15 @@ var ErrWatchdog = errors.New("harness watchdog fired (inconclusive)")
 // WatchdogFired counts watchdog expiries in this process.
 var WatchdogFired int64
 
+// NoteWatchdog records that a call was abandoned after CallTimeout. The call
+// may still be running inside the system under test; whatever the harness tears
+// down afterwards (a closed store) can crash that abandoned call, which says
+// nothing about the system: bin/classify_crash.py reads this line.
+func NoteWatchdog(method string) {
+	atomic.AddInt64(&WatchdogFired, 1)
+	fmt.Printf("NOTE harness watchdog fired: call %q abandoned after %s\n", method, CallTimeout)
+}
+
 // IsWatchdog reports whether err is the harness watchdog.
 func IsWatchdog(err error) bool {
 	return err != nil && (err == ErrWatchdog || strings.Contains(err.Error(), ErrWatchdog.Error()))
@@ -710,7 +719,7 @@ func (w *World) Raw(svc jsonrpc2.Service, method string, result interface{}, par
 	defer cancel()
 	err := svc.Call(ctx, result, method, params...)
 	if err != nil && ctx.Err() == context.DeadlineExceeded {
-		atomic.AddInt64(&WatchdogFired, 1)
+		NoteWatchdog(method)
 		return ErrWatchdog
 	}
 	return err
